@@ -161,7 +161,7 @@ func modesWriteError(out *scenOut, exit string) {
 	case <-w.failed:
 	case <-time.After(3 * time.Second):
 		out.record("write-error/not-reached/"+exit, desc)
-		run.p.Kill()
+		killNow(run.p)
 		run.wait(3 * time.Second)
 		return
 	}
@@ -190,7 +190,7 @@ func modesWriteError(out *scenOut, exit string) {
 	case "quit":
 		run.p.Quit()
 	case "kill":
-		run.p.Kill()
+		killNow(run.p)
 	case "ctx":
 		cancel()
 	case "panic-update":
@@ -384,11 +384,11 @@ func modesOnce(out *scenOut, o modeOpts, ek string, hist []int, released bool) {
 		case "tty-hangup-kill":
 			hang.master.Close()
 			time.Sleep(5 * time.Millisecond)
-			run.p.Kill()
+			killNow(run.p)
 		case "quit":
 			run.p.Quit()
 		case "kill":
-			run.p.Kill()
+			killNow(run.p)
 		case "ctx":
 			cancel()
 		case "interrupt":
@@ -454,7 +454,7 @@ func modesMethodsDuringStartup(out *scenOut) {
 	select {
 	case <-reached:
 	case <-time.After(3 * time.Second):
-		run.p.Kill()
+		killNow(run.p)
 		run.wait(3 * time.Second)
 		return
 	}
@@ -474,7 +474,7 @@ func modesMethodsDuringStartup(out *scenOut) {
 	}
 	run.p.Quit()
 	if !run.wait(4 * time.Second) {
-		run.p.Kill()
+		killNow(run.p)
 		run.wait(3 * time.Second)
 	}
 }
@@ -493,7 +493,10 @@ func modesMethodsWhileRunning(out *scenOut, r *rng, exit string) {
 	go func() { _, err := p.Run(); done <- err }()
 	if !waitFor(3*time.Second, func() bool { return ctl.log.has("view-exit", "") }) {
 		go p.Kill()
-		<-done
+		select {
+		case <-done:
+		case <-time.After(3 * time.Second):
+		}
 		return
 	}
 	methods := []struct {
